@@ -29,6 +29,9 @@ def build_controller(cfg):
         desc['space_transfer_class'] = nocoarse
         lo = 2 if cfg['quad_type'] in ('LOBATTO',) else 1
         desc['sweeper_params']['num_nodes'] = [cfg['num_nodes'], max(lo, cfg['num_nodes'] - 1)]
+    if cfg.get('e_tol'):
+        lp['e_tol'] = cfg['e_tol']  # stop on the increment between iterations (registers an extra level status variable)
+        lp['restol'] = -1.0
     cc = {}
     if cfg.get('adaptivity'):
         from pySDC.implementations.convergence_controller_classes.adaptivity import Adaptivity
